@@ -1,7 +1,7 @@
 """C08 — each contract's storage is private to it and is all it can touch (DESIGN.md §5 C08)."""
 from vlib import q
 from vlib.cfg import cfg_of
-from vlib.prov import peel, fmt, is_param, contains, alts, deep_peel, same_origin, is_param_field, root_param
+from vlib.prov import peel, fmt, is_param, contains, alts, deep_peel, same_origin, is_param_field, root_param, just
 
 LEVEL = "other"
 EXPLANATION = (
@@ -443,7 +443,7 @@ def r6(ctx, cfg):
             d = fmt(ad)[:120]
             ok = ad[0] == "ok" and contains(ad[1], lambda x: x[0] == "call" and x[1].endswith("Api::addr_validate") and
                                             contains(x[2][1], lambda y: is_param_field(y, "request", "contract_addr")))
-            ok = ok and is_param(a[2], "storage") and contains(a[3], lambda y: is_param_field(y, "request", "key"))
+            ok = ok and is_param(a[2], "storage") and just(a[3], lambda y: is_param_field(y, "request", "key"))
             conds = q.dominating_conditions(P, f, b)
             ok = ok and any(c[0] == "variant_in" and c[2] == ("Raw",) for e, c in conds)
             # the validated address must come from the Raw variant's own field
